@@ -173,7 +173,14 @@ func (i *Interface) checkCache(key string) record.Record {
 	if err == nil {
 		r, ok := cacheVal.(record.Record)
 		if ok {
-			return r
+			// A record that was deleted or has expired since it was cached
+			// is not a hit, the storage decides what there is.
+			r.Lock()
+			valid := r.Meta().CheckValidity()
+			r.Unlock()
+			if valid {
+				return r
+			}
 		}
 	}
 	return nil
